@@ -1060,6 +1060,9 @@ func (zl *zlexer) Next() (lex, bool) {
 				break
 			}
 
+			// a backslash is part of a token, the next blank separates again
+			zl.space = false
+
 			// something already escaped must be in string
 			if escape {
 				str[stri] = x
